@@ -27,11 +27,23 @@ def describe(tier):
 def shards(tier, seed):
     caps = range(0, 11 if tier == "quick" else 21)
     out = [(k, c) for k in KINDS for c in caps]
+    out += [(k, c, "grown") for k in KINDS for c in caps if c]
     return out[seed % len(out):] + out[: seed % len(out)]
 
 
+HISTORY = ["fresh"]
+
+
 def mk(kind, cap, salt, context=None):
-    b = place.traced(kind, cap, context=context)
+    if HISTORY[0] == "grown" and cap:
+        # the buffer reached its capacity by a relocating growth after its primitives had been used once
+        first = cap // 2
+        b = place.traced(kind, first, context=context)
+        b.to_native(0, first)
+        b.copy_to_native(bytearray(first) if kind == "ba" else np.zeros(first, dtype="int8"), 0, 0, first)
+        b.grow(cap - first)
+    else:
+        b = place.traced(kind, cap, context=context)
     bg = place.poison(cap, salt)
     if cap:
         # poison through the storage itself (not through the primitives under test)
@@ -58,10 +70,10 @@ class Ctxt:
         self.res, self.kind, self.cap = res, kind, cap
 
     def bad(self, prim, failure, detail, **feat):
-        f = dict(kind=self.kind, cap=self.cap, primitive=prim)
+        f = dict(kind=self.kind, cap=self.cap, primitive=prim, buffer_history=HISTORY[0])
         f.update(feat)
         self.res.outcomes["bad:" + prim] += 1
-        self.res.violations.append(common.violation("C13." + prim, failure, f, dict(kind=self.kind, cap=self.cap, primitive=prim, **{k: v for k, v in feat.items()}), detail))
+        self.res.violations.append(common.violation("C13." + prim, failure, f, dict(kind=self.kind, cap=self.cap, primitive=prim, buffer_history=HISTORY[0], **{k: v for k, v in feat.items()}), detail))
 
     def ok(self, prim):
         self.res.outcomes["ok:" + prim] += 1
@@ -91,7 +103,8 @@ def call(c, prim, feat, fn):
 
 
 def run_shard(shard, tier, seed):
-    kind, cap = shard
+    kind, cap = shard[:2]
+    HISTORY[0] = shard[2] if len(shard) > 2 else "fresh"  # this process only
     res = common.ShardResult()
     c = Ctxt(res, kind, cap)
     salt = seed % 50
@@ -364,5 +377,5 @@ def run_shard(shard, tier, seed):
 
 def replay(case):
     res = common.ShardResult()
-    r = run_shard((case["kind"], case["cap"]), "quick", 0)
+    r = run_shard((case["kind"], case["cap"], case.get("buffer_history", "fresh")), "quick", 0)
     return [v for v in r.violations if v["features"].get("primitive") == case.get("primitive")]
